@@ -167,8 +167,17 @@ def enumerations(tier, shard, nshards):
                 cc["fault"] = ["kill_mid_message", w, 0, -9]
                 cc["choices"] = []
                 yield cc
+            # the same 90 KB per worker, one worker fails while the other is silent for some polls: after the abort the
+            # survivor must not be left alive with more to deliver than the pipe holds (the exit-time join would never return)
+            for fault in (["exc", 0, 0, 1], ["exc", 1, 5, 137], ["exc", 0, 29, 3], ["kill", 0, 3, -9], ["kill", 1, 0, -9]):
+                for choices in ([], [0], [0, 0], [0] * 4, [0] * 8, [1] * 6, [0, 1, 0, 1, 0, 1], [2, 0, 0, 0], [0, 2, 0, 0, 2]):
+                    cc = dict(c)
+                    cc["fault"] = list(fault)
+                    cc["choices"] = list(choices)
+                    yield cc
 
-        yield ("kill in the middle of a queue message larger than the pipe buffer (fires only if such messages exist)", torn(), True)
+        yield ("90 KB of results per worker: kill in the middle of a message larger than the pipe buffer (fires only if such messages "
+               "exist); failures while the other worker is silent (survivor left with more than the pipe holds)", torn(), True)
 
         def real():
             for kind, cores in itertools.product(("exc", "exit", "kill", "term"), (1, 2)):
